@@ -196,7 +196,47 @@ def empty_collection_case():
 
 
 empty_collection_case()
-print(json.dumps({"bound": "batches of 1..8 (thorough 40) distinct jobs x 1..4 workers x switch intervals {1e-6,1e-4,5e-3} x enqueue before/after start; failing job (3 kinds) at every position of batches of 1,3 (thorough 6); one empty-collection job",
+
+
+def status_before_enqueue_returns():
+    """the enqueuing thread is held inside job_queue.put() long enough for the master and a worker to run the job and deliver its
+    status: the returned Future must still complete (it has to be registered before the job becomes visible)"""
+    global evaluations
+    import queue as _queue
+
+    class HeldQueue(_queue.Queue):
+        def put(self, item, *a, **kw):
+            super().put(item, *a, **kw)
+            time.sleep(0.4)
+
+    for kind in ("good", "processor-raises"):
+        evaluations += 1
+        distinct.add(("status-before-enqueue-returns", kind))
+        stop = threading.Event()
+        transport = InMemorySemantivaTransport()
+        orch = QueueSemantivaOrchestrator(transport, stop_event=stop, logger=QUIET)
+        orch.job_queue = HeldQueue()
+        threads = [threading.Thread(target=orch.run_forever, daemon=True),
+                   threading.Thread(target=worker_loop, args=(0, transport, SequentialSemantivaExecutor(), stop), kwargs={"logger": QUIET, "poll_interval": 0.01}, daemon=True)]
+        for t in threads:
+            t.start()
+        try:
+            fut = orch.enqueue(good(0) if kind == "good" else BAD[kind](0), context=ContextType({"tag": 0}), return_future=True)
+            try:
+                fut.result(timeout=4.0)
+            except FutTimeout:
+                failures.append({"class": "future-never-completes:status-delivered-before-enqueue-returned", "job": kind})
+            except Exception:       # noqa - exceptional completion of the failing job
+                pass
+        finally:
+            stop.set()
+            orch.stop()
+            for t in threads:
+                t.join(timeout=2)
+
+
+status_before_enqueue_returns()
+print(json.dumps({"bound": "batches of 1..8 (thorough 40) distinct jobs x 1..4 workers x switch intervals {1e-6,1e-4,5e-3} x enqueue before/after start; failing job (3 kinds) at every position of batches of 1,3 (thorough 6); one empty-collection job; 2 jobs whose status is delivered while the enqueuing thread is still inside put()",
                   "evaluations": evaluations, "distinct_nontrivial": len(distinct),
                   "rule": "distinct = (batch size, workers, switch interval, enqueue timing, failing position, failure kind); results compared with a direct Pipeline.process of the same job",
                   "failures": failures[:40], "samples": samples}, default=str))
